@@ -23,6 +23,10 @@ type privProbe struct {
 	Build func(k int, env *c05Env) (uint16, []rp.Field)
 	// Silent: a granted request of this kind has no reply (completion is fenced by a keep-alive)
 	Silent bool
+	// Any: Needs is a disjunction, and holding one of them is necessary, not sufficient: the target has no kind that
+	// would say which of the two governs (an alias whose original is gone), so only "holds neither => refused, no
+	// effect" is judged
+	Any bool
 }
 
 type c05Env struct {
@@ -37,6 +41,12 @@ func dname(k int) rp.Field { return rp.FS(rp.FFileName, fmt.Sprintf("dir%03d", k
 var privProbes = []privProbe{
 	{Name: "delete-file", Needs: []int{rp.PDeleteFile}, Build: func(k int, e *c05Env) (uint16, []rp.Field) { return rp.TDeleteFile, []rp.Field{fname(k)} }},
 	{Name: "delete-folder", Needs: []int{rp.PDeleteFolder}, Build: func(k int, e *c05Env) (uint16, []rp.Field) { return rp.TDeleteFile, []rp.Field{dname(k)} }},
+	{Name: "delete-dangling-alias", Any: true, Needs: []int{rp.PDeleteFile, rp.PDeleteFolder}, Build: func(k int, e *c05Env) (uint16, []rp.Field) {
+		return rp.TDeleteFile, []rp.Field{rp.FS(rp.FFileName, fmt.Sprintf("dangling%03d", k))}
+	}},
+	{Name: "move-dangling-alias", Any: true, Needs: []int{rp.PMoveFile, rp.PMoveFolder}, Build: func(k int, e *c05Env) (uint16, []rp.Field) {
+		return rp.TMoveFile, []rp.Field{rp.FS(rp.FFileName, fmt.Sprintf("dangling%03d", k)), rp.F(rp.FFileNewPath, rp.FilePath("target"))}
+	}},
 	{Name: "rename-file", Needs: []int{rp.PRenameFile}, Build: func(k int, e *c05Env) (uint16, []rp.Field) {
 		return rp.TSetFileInfo, []rp.Field{fname(k), rp.FS(rp.FFileNewName, fmt.Sprintf("renamed%02d.txt", k))}
 	}},
@@ -238,6 +248,14 @@ func c05Populate(w *World) {
 			if strings.Contains(p.Name, "file") || p.Name == "make-alias" {
 				must(os.WriteFile(filepath.Join(root, fmt.Sprintf("file%03d.txt", k)), []byte("content"), 0644))
 			}
+			if strings.Contains(p.Name, "dangling") {
+				// an alias whose original is gone (every second one: an alias that points to itself)
+				to := filepath.Join(root, fmt.Sprintf("gone%03d.txt", k))
+				if j%2 == 1 {
+					to = filepath.Join(root, fmt.Sprintf("dangling%03d", k))
+				}
+				must(os.Symlink(to, filepath.Join(root, fmt.Sprintf("dangling%03d", k))))
+			}
 			if strings.Contains(p.Name, "folder") {
 				must(os.MkdirAll(filepath.Join(root, fmt.Sprintf("dir%03d", k)), 0755))
 				must(os.WriteFile(filepath.Join(root, fmt.Sprintf("dir%03d", k), "inner.txt"), []byte("x"), 0644))
@@ -360,6 +378,12 @@ func runC05(w *World) {
 			for _, b := range p.Needs {
 				allowed = allowed && acc.Has(b)
 			}
+			if p.Any {
+				allowed = false
+				for _, b := range p.Needs {
+					allowed = allowed || acc.Has(b)
+				}
+			}
 			if p.Name == "disconnect-user" {
 				if victimGone {
 					continue
@@ -382,6 +406,9 @@ func runC05(w *World) {
 			}
 			denied := len(reps) == 1 && reps[0].T.Err != 0
 			w.Probe(fmt.Sprintf("probe_%s_allowed_%v", p.Name, allowed))
+			if allowed && p.Any {
+				continue // necessary, not sufficient: nothing to judge
+			}
 			if allowed {
 				if denied {
 					w.Violate("c05-refused-with-privilege-"+p.Name, "step %d: requester holds %v but %s was refused: %q (access %x)", step, p.Needs, p.Name, fieldStr(reps[0].T, rp.FError), acc)
@@ -394,7 +421,11 @@ func runC05(w *World) {
 				continue
 			}
 			// not allowed: exactly one error reply, nothing changes, nobody else hears of it
-			if len(reps) != 1 || !denied {
+			if p.Any && len(reps) == 0 {
+				// the server drops requests about entries it cannot stat without an answer; that is no grant - what
+				// counts is that nothing changed and nobody heard of it
+				w.Probe("unanswered_request_about_unresolvable_entry")
+			} else if len(reps) != 1 || !denied {
 				w.Violate("c05-not-refused-"+p.Name, "step %d: requester lacks %v (access %x) but %s was answered with %d replies, error=%v", step, p.Needs, acc, p.Name, len(reps), denied)
 				return
 			}
